@@ -187,7 +187,8 @@ def replay_resource(prop, result, fresh, wd, info):
     """A failed monitor obligation is one step from an invariant state, not a schedule.  The replay runs the REAL
     Resource.cpp against shim <mutex>/<condition_variable> headers and forces the two schedules the invariant exists to
     exclude (A/B: an admitted reader that is slow to wake up while its sibling finishes, with and without a queued writer;
-    C: reader, writer, reader parked behind a writer; D: a reader arriving while a writer is parked)."""
+    C: reader, writer, reader parked behind a writer; D: a reader arriving while a writer is parked; E: a reader arriving while only readers hold, after an
+    earlier request had queued; F: a writer arriving in a second busy period while a reader holds)."""
     exe = os.path.join(wd, 'res_replay')
     cmd = ['g++', '-std=c++20', '-g', '-O0', '-DNDEBUG', '-Wno-volatile', '-isystem', os.path.join(ROOT, 'replay', 'shim'),
            '-I', os.path.join(REPO, 'include'), '-I', REPO, os.path.join(ROOT, 'replay', 'res_replay.cpp'), '-o', exe, '-lpthread']
@@ -196,7 +197,7 @@ def replay_resource(prop, result, fresh, wd, info):
         info['native'] = 'replay driver does not build against the current tree: ' + out[-1500:]
         return False
     outs = {}
-    for sc in ('A', 'B', 'C', 'D'):
+    for sc in ('A', 'B', 'C', 'D', 'E', 'F'):
         for attempt in range(2):
             rc, o = _run(['timeout', '60', exe, sc], timeout=90)
             outs[sc] = o.strip()[-300:]
